@@ -28,22 +28,45 @@ def run(prop, tier, seed, known):
     with warnings.catch_warnings():
         warnings.simplefilter('ignore')
         ok_labels = []
-        for s in pool:
+        spec = chordre.spec_module()
+
+        def spec_enc(label, red):
+            # the independent encoder of contracts/_chord_spec.py (not the library): a polluted cache or template in the library shows up here
             try:
-                enc[s] = chord.encode(s)
+                r_, b_, ba_ = spec.encode(label, red, False)
+                return (r_, list(b_), ba_)
+            except (spec.NotHarte, spec.NotEncodable):
+                return None
+        enc_red = {}
+        for s in pool:
+            enc[s] = spec_enc(s, False)
+            enc_red[s] = spec_enc(s, True)
+            if enc[s] is not None:
                 ok_labels.append(s)
-            except chord.InvalidChordException:
-                enc[s] = None
         n = 0
         rng = random.Random(seed)
-        for _ in range(200):
-            batch = [rng.choice(ok_labels) for _ in range(rng.randint(0, 6))]
-            r, b, ba = chord.encode_many(batch)
-            n += 1
-            for i, l in enumerate(batch):
-                e = enc[l]
-                if not (r[i] == e[0] and list(b[i]) == list(e[1]) and ba[i] == e[2]):
-                    fails.append('encode_many(%r) row %d != encode(%r)' % (batch, i, l))
+        # labels that edit their quality template (added / omitted degrees) next to plain labels of the same quality, both flag values in
+        # both orders within one process
+        tricky = [l for l in ('C:maj(*3)', 'C:maj', 'G:maj(2)', 'G:maj', 'C:min(b7)', 'C:min', 'G:9', 'G:9(*5)', 'D:maj(9)', 'D:maj', 'A:min11', 'A:min') if enc.get(l, spec_enc(l, False)) is not None]
+        for l in tricky:
+            enc.setdefault(l, spec_enc(l, False))
+            enc_red.setdefault(l, spec_enc(l, True))
+        for it in range(200):
+            batch = [rng.choice(ok_labels if rng.random() < 0.7 else tricky) for _ in range(rng.randint(0, 6))]
+            for red in ((False, True) if it % 2 == 0 else (True, False)):
+                want_rows = [(enc_red if red else enc)[l] for l in batch]
+                if any(w is None for w in want_rows):
+                    continue
+                r, b, ba = chord.encode_many(batch, red)
+                n += 1
+                for i, l in enumerate(batch):
+                    e = want_rows[i]
+                    if not (int(r[i]) == e[0] and [int(x) for x in b[i]] == list(e[1]) and int(ba[i]) == e[2]):
+                        fails.append('encode_many(%r, reduce_extended_chords=%s) row %d is not the documented encoding of %r: %s vs %s'
+                                     % (batch, red, i, l, (int(r[i]), [int(x) for x in b[i]], int(ba[i])), e))
+                        break
+            if len(fails) > 3:
+                break
         bad = [s for s in pool if enc[s] is None][:20]
         for l in bad:
             try:
